@@ -141,8 +141,12 @@ def algorithms_agree(ctx, n):
             # recorded finding (shared with C20): on a planted datum problem the algorithms remove different points; one of them may be
             # left with nothing to adjust while the others go on with a part of the network
             key = None
-            nadj = sum(1 for p in net["points"] if "adj" in p) if isinstance(net, dict) else None
-            if ill and nadj is not None and any(oks[a] and len(gama.adjusted_map(outs[a]["res"])) < nadj for a in ALGS):
+            nadj = sum(len((p.get("adj") or "")) for p in net["points"]) if isinstance(net, dict) else None      # coordinates to be adjusted
+
+            def ncoord(res):
+                cs = res["coord_summary"]
+                return sum(3 * cs[k]["xyz"] + 2 * cs[k]["xy"] + cs[k]["z"] for k in ("adjusted", "constrained"))
+            if ill and nadj is not None and any(oks[a] and ncoord(outs[a]["res"]) < nadj for a in ALGS):
                 key = "%s:removed-points-depend-on-algorithm" % ctx.pid
             if ctx.violation({"kind": "E:algorithms-refusal", "gkf": txt, "adjusted_by": oks,
                               "messages": {a: (outs[a]["run"].out + outs[a]["run"].err)[-300:] for a in ALGS}},
